@@ -30,6 +30,13 @@ theorem wrappingIndex_new (r c : Int) : Gen.WrappingIndex.new r c = ⟨r, c⟩ :
 theorem wrappingIndex_swap (i : WrappingIndex) : Gen.WrappingIndex.swap i = ⟨i.col, i.row⟩ := rfl
 theorem axisIndex_swap (i : AxisIndex) : Gen.AxisIndex.swap i = i.swap := rfl
 
+theorem matrix_order (h : Hdr) : Gen.Matrix.order h = h.order := rfl
+theorem matrix_major (h : Hdr) : Gen.Matrix.major h = h.major := rfl
+theorem matrix_minor (h : Hdr) : Gen.Matrix.minor h = h.minor := rfl
+/-- the private stride helpers of `Matrix` delegate to the axis shape: (minor, 1) -/
+theorem matrix_major_stride (h : Hdr) : Gen.Matrix.major_stride h = h.shape.minor := rfl
+theorem matrix_minor_stride (h : Hdr) : Gen.Matrix.minor_stride h = 1 := rfl
+
 /-- the order switch is an involution without fixed points; the swaps are involutions -/
 theorem order_switch_involutive (o : Order) : Gen.Order.switch (Gen.Order.switch o) = o ∧ Gen.Order.switch o ≠ o := by
   cases o <;> exact ⟨rfl, by decide⟩
